@@ -191,12 +191,14 @@ pub fn foldref_haystacks(pattern: &str) -> Vec<String> {
     v
 }
 
+const TEMPLATE_HAY_LITS: [&str; 15] = ["a", "ab", "abc", "abcdefghijklmnopq", "abcdefghijklmnopqrstuvwxyz0123456", "k", "K", "\u{212A}", "é", "É", "aé\u{10000}b", "kKs", "abcdefghijklmnopqr", "aé", "1\u{FE0F}\u{20E3}"];
+
 /// Haystacks for template programs: the literals themselves followed / preceded by the
 /// characters the skeletons look for.
 pub fn template_haystacks() -> Vec<String> {
     let mut v = Vec::new();
-    for l in ["a", "ab", "abc", "abcdefghijklmnopq", "abcdefghijklmnopqrstuvwxyz0123456", "k", "K", "\u{212A}", "é", "É", "aé\u{10000}b", "kKs", "abcdefghijklmnopqr", "aé", "1\u{FE0F}\u{20E3}"] {
-        let l = l.replace("\\u{212A}", "\u{212A}").replace("\\u{10000}", "\u{10000}").replace("\\u{FE0F}", "\u{FE0F}").replace("\\u{20E3}", "\u{20E3}");
+    for l in TEMPLATE_HAY_LITS {
+        let l = l.to_string();
         for pre in ["", "b", "x", "-"] {
             for post in ["!", "!!", "b!", "c!", "", "-", "-!"] {
                 v.push(format!("{}{}{}", pre, l, post));
@@ -314,6 +316,16 @@ pub fn haystacks(p: &Program, rng: &mut Rng, budget: usize, n_long: usize, ascii
     }
     if p.source == "template" {
         let mut v = template_haystacks();
+        // the haystacks built around the longest literal the pattern contains come first (checks
+        // that truncate the list keep the relevant ones)
+        let pat = p.pattern_lossy();
+        let mut lits: Vec<&str> = TEMPLATE_HAY_LITS.iter().copied().filter(|l| pat.contains(l)).collect();
+        lits.sort_by_key(|l| std::cmp::Reverse(l.len()));
+        if let Some(best) = lits.first() {
+            let best = best.to_string();
+            let rank = |h: &String| if h.contains(&best) { 0 } else { 1 };
+            v.sort_by_key(rank);
+        }
         if ascii_only {
             v.retain(|s| s.is_ascii());
         }
